@@ -338,13 +338,13 @@ async fn server_history(tr: &mut Tracer, w: &mut World, rng: &mut Rng, n: u64, l
         if res == "skip" {
             continue;
         }
-        if res == "other" {
-            eprintln!("TOOL-ERROR unexpected server answer in softlock history n={n} ev={ev}");
-            return false;
-        }
+        // an answer the driver does not classify (refused for a reason other than the lock) is data:
+        // it is logged as "refused" with a note and judged like any refusal
+        let other = res == "other";
+        let res = if other { "refused".to_string() } else { res };
         let after = ka::server_softlock(&w.idms, a.cred).await;
         let valid = after.as_ref().map(|p| p.valid).unwrap_or(true);
-        lines.push(json!({"a": "attempt", "path": path, "ct": ct, "exp": exp, "wrong": wrong as u8, "res": res, "v": valid as u8, "st": st_json(&after)}));
+        lines.push(json!({"a": "attempt", "path": path, "ct": ct, "exp": exp, "wrong": wrong as u8, "res": res, "other": other as u8, "v": valid as u8, "st": st_json(&after)}));
     }
     tr.emit(&json!({"a": "reset", "pol": polname, "w": win, "proto": 1, "server": 1, "kind": kind, "evs": evs, "st": st_json(&None)}));
     for l in &lines {
